@@ -44,6 +44,8 @@ def run_programs(chk, programs, cmp_msg=False, repeat=1, fuel=None, tag=None, st
             d["verdict"] = "syntax"
         elif r["kind"] == "panic":
             d["verdict"] = "panic"
+        elif r["kind"] == "fuel":
+            d["verdict"] = "fuel"
         elif not r.get("coq"):
             d["verdict"] = "nocoq"
         else:
